@@ -360,6 +360,36 @@ func c08GroundTruth(c *drv.Ctx, n int) error {
 	}
 	defer os.RemoveAll(dir)
 	_ = os.WriteFile(filepath.Join(dir, "go.mod"), []byte("module ground\n\ngo 1.25\n"), 0o644)
+	// The file a user compiles is the one the command wrote, usually over the output of an
+	// earlier run: regenerate with other options over the (longer) earlier parser and parse it.
+	if bin, err := BuildPeg(c, false); err == nil {
+		cdir := filepath.Join(c.Scratch, "c08cli")
+		_ = os.MkdirAll(cdir, 0o755)
+		defer os.RemoveAll(cdir)
+		for i := range cases {
+			if i >= 6 || cases[i].Features["warned-grammar"] {
+				continue
+			}
+			_ = os.WriteFile(filepath.Join(cdir, "g.peg"), []byte(cases[i].Text), 0o644)
+			_ = os.Remove(filepath.Join(cdir, "g.peg.go"))
+			// longest first: without options, then -inline -switch, then -noast
+			for _, v := range []lab.Variant{lab.V0, lab.V3, lab.N0, lab.V0} {
+				args := append(v.Args()[1:], "g.peg")
+				exit, _, stderr := runPeg(bin, cdir, "", nil, args...)
+				c.Stats.Eval()
+				c.Stats.Class("cli_regeneration_then_parse")
+				if exit != 0 {
+					break // refused grammars are C15's and C18's business
+				}
+				b, _ := os.ReadFile(filepath.Join(cdir, "g.peg.go"))
+				if _, perr := parser.ParseFile(token.NewFileSet(), "g.peg.go", b, parser.SkipObjectResolution); perr != nil {
+					cs := cases[i]
+					c.AddViolation(drv.Violation{Property: "C08", Kind: "gen-text", What: fmt.Sprintf("peg %s g.peg, run over the g.peg.go an earlier run had left, leaves a file that does not parse: %v (stderr %q)\n--- grammar ---\n%s", v.Flags(), perr, firstLine(stderr), cs.Text), Case: &cs})
+					return nil
+				}
+			}
+		}
+	}
 	type pk struct {
 		cs   *genCase
 		v    lab.Variant
